@@ -2,254 +2,90 @@
 import re
 from core import *  # noqa
 from roles import *  # noqa
-import roles, shared, symex
+import roles, shared, symex, inline, absint
+import queue_rules as Q
+import pool_rules as PR
+import server_rules as S
 
 EXPLANATION = (
-    "Dispatch/hand-off clauses decided on MIR: the enqueue-vs-new-thread decision of TaskPool::spawn must depend on both the idle-worker "
-    "counter and the number of already queued tasks (provenance of the deciding branch conditions; a guard on the idle counter alone "
-    "promises one parked worker to many connections, which then wait for some other connection to end); nothing blocking and no task "
-    "runs while the `todo` lock is held (ownership dataflow + mono effect graph); each accepted connection reaches exactly one spawn; "
-    "every popped task is run and a worker only retires when it timed out with an empty queue; blocking channel receives exist only in "
-    "the per-connection turn-taking (census). OS thread creation, throughput and scheduling are not decided.")
+    "Dispatch/hand-off clauses decided on MIR, with the pool, its dispatch method, its worker and its counters bound by structure and role "
+    "(not by private names) and every body analysed with its helpers spliced in: the enqueue-vs-new-thread decision of the pool's dispatch must "
+    "depend on both the idle-worker counter and the number of already queued tasks (a guard on the idle counter alone promises one parked worker "
+    "to many connections, which then wait for some other connection to end); every counter increment is paired with a decrement on every way out; "
+    "nothing blocking and no task runs while the task-queue lock is held (ownership dataflow + mono effect graph); each accepted connection reaches "
+    "exactly one dispatch; every popped task is run exactly once and a worker only retires when its wait timed out with an empty queue (variant / "
+    "constant propagation over the worker loop); blocking channel receives exist only in the per-connection turn-taking module (census). "
+    "OS thread creation, throughput and scheduling are not decided.")
 TRUSTED = ["rustc MIR / trait resolution", "std effect table", "std Mutex/Condvar/atomics semantics"]
 
 FORBIDDEN_UNDER_TODO = {"BLOCK-IO", "CHAN-RECV", "WAIT-TURN-W", "WAIT-TURN-R", "SLEEP", "JOIN", "USER-CALLBACK", "DYN-UNKNOWN", "FNPTR", "FS", "NET-CTL"}
 
 
-def guard_locals(f):
-    return {i for i, l in enumerate(f.locals) if l["ty"].startswith("std::sync::MutexGuard<")}
-
-
 def run(ctx):
     facts = ctx.facts
     roles.bind(facts)
-    spawn = roles.inherent(facts, TP, "spawn")
-    add_thread = roles.inherent(facts, TP, "add_thread")
-    workers = facts.find_fns(r"^util::task_pool::TaskPool::add_thread::\{closure#0\}$")
-    ctx.require(len(workers) == 1, "C08: worker closure not found")
-    worker = workers[0]
+    P = PR.model(facts)
+    SM = S.smodel(facts)
 
-    # ---- C08.1 promise accounting in spawn
-    f = spawn
-    ctx.touch(f)
-    pushes = [bb for bb, t in f.calls() if re.search(r"VecDeque::<T(, A)?>::push_back$", call_name(t))]
-    starts = f.call_blocks(lambda t: call_is(t, add_thread.id))
-    ctx.require(starts or pushes, "C08.1: spawn neither enqueues nor starts a thread")
-    if not pushes:
-        ctx.ob("C08.1", "%s|promise-accounting" % f.id, "spawn never queues a connection for an idle worker (always a new thread): no promise to account for", True, "%s:%d" % (f.file, f.line), nontrivial=False)
-    if not starts:
-        ctx.ob("C08.1", "%s|promise-accounting" % f.id, "spawn can start a new worker when no idle one is available", False, "%s:%d" % (f.file, f.line), "spawn only ever queues: with every worker busy a new connection waits for another one to end")
-    skip_c081 = not (pushes and starts)
-    deciding = []
-    for bb in ([] if skip_c081 else sorted(f.live_blocks())):
-        if f.term(bb)["t"] != "switch" or f.blocks[bb]["cleanup"]:
-            continue
-        succ = f.succs(bb, False)
-        reach = [f.reach([s], unwind=False) for s in succ]
-        can_push = [bool(r & set(pushes)) for r in reach]
-        can_start = [bool(r & set(starts)) for r in reach]
-        if any(can_push) and any(can_start) and (can_push != can_start or not all(can_push)):
-            deciding.append(bb)
-    ctx.require(deciding or skip_c081, "C08.1: deciding branch of spawn not found")
-    reads_idle = reads_queue = False
-    for bb in deciding:
-        o = f.origin(f.term(bb)["discr"])
-        for x in origin_calls(o):
-            if re.search(r"atomic::Atomic(::<usize>|Usize)::load$", x[1]) and any("waiting_tasks" in origin_fields(a) for a in x[2]):
-                reads_idle = True
-            if re.search(r"VecDeque::<T(, A)?>::(len|is_empty)$", x[1]):
-                reads_queue = True
-    # alternative accepted protocol: the enqueue branch claims a worker by decrementing the idle counter itself
-    claims = False
-    for pb in pushes:
-        for b2 in f.reach([pb], unwind=False):
-            t = f.term(b2)
-            if t["t"] == "call" and re.search(r"atomic::Atomic(::<usize>|Usize)::fetch_sub$", call_name(t)) and "waiting_tasks" in arg_origin_fields(f, t):
-                claims = True
-    ok = reads_idle and (reads_queue or claims)
-    if not skip_c081:
-      ctx.ob("C08.1", "%s|promise-accounting" % f.id,
-           "the decision to queue a connection for an idle worker accounts for the connections already queued (each parked worker is promised to at most one task)",
-           ok, f.loc(deciding[0]), None if ok else "deciding condition reads idle-counter=%s queued-count=%s claim-on-enqueue=%s: a burst of connections is queued for the same idle worker and the rest starve until another connection ends" % (reads_idle, reads_queue, claims))
-    # facts the argument relies on: the idle counter is only changed by the worker's Registration guard
-    for adt, fld in ((SHARING, "waiting_tasks"), (SHARING, "active_tasks")):
-        for g, bb, kind in facts.field_reads(adt, fld):
-            okf = g.id in (spawn.id, worker.id) or g.rec.get("impl_self_adt") == TP
-            ctx.ob("C08.1", "%s.%s|reader|%s" % (adt, fld, g.id), "the worker counters are used only by the pool itself", okf, g.loc(bb))
-    nctr = shared.pool_counter_discipline(ctx, "C08.1")
-    ctx.floor("C08.1 counter writes", nctr, 2)
-    # the idle registration is taken by the worker right before it parks and lives until after the wake-up
-    wregs = [(bb, t) for bb, t in worker.calls() if call_is(t, roles.inherent(facts, REG, "new").id) and "waiting_tasks" in arg_origin_fields(worker, t)]
-    waits = [bb for bb, t in worker.calls() if call_is(t, CV_WAIT, CV_WAIT_T)]
-    okw = len(wregs) == 1 and bool(waits) and all(worker.dominates(wregs[0][0], w_, unwind=False) for w_ in waits)
-    if okw:
-        gl_ = wregs[0][1]["dest"]["l"]
-        gd_ = {bb for bb, t in worker.drops() if not t["pl"]["p"] and t["pl"]["l"] == gl_}
-        r_ = worker.reach([worker.normal_target(wregs[0][0])], blocked=gd_, unwind=True)
-        okw = not [x for x in r_ if worker.term(x)["t"] in ("return", "resume")] and not (r_ & {wregs[0][0]})
-    ctx.ob("C08.1", "%s|idle-count-guarded" % worker.id, "a worker counts as idle from just before it parks until it has woken up, and gives the count back on every exit (early return, unwinding)", okw, "%s:%d" % (worker.file, worker.line))
-    # push happens under the lock and is followed by a notify
-    nots = set(f.call_blocks(lambda t: call_is(t, *CV_NOTIFY)))
-    for pb in pushes:
-        reach = f.reach([f.normal_target(pb)], blocked=nots, unwind=False)
-        ctx.ob("C08.1", "%s|enqueue-notifies" % f.id, "a queued task is announced to a parked worker", bool(nots) and not any(r in reach for r in f.returns()), f.loc(pb))
+    # ---- C08.1 promise accounting in dispatch, counter discipline
+    PR.rule_dispatch(ctx, "C08.1")
+    n = PR.rule_counter_discipline(ctx, "C08.1")
+    ctx.floor("C08.1 counter writes", n, 2)
+    PR.rule_idle_window(ctx, "C08.1")
 
     # ---- C08.2 nothing blocking / no task runs under the todo lock
-    n = 0
-    for g in (spawn, worker):
-        insts = [i for i in facts.instances_of(g.id) if i["kind"] == "item"]
-        ctx.require(len(insts) == 1, "C08.2: instance of %s" % g.id)
-        inst = insts[0]
-        IN = maybe_init(g)
-        gl = guard_locals(g)
-        ctx.require(gl, "C08.2: no MutexGuard local in %s" % g.id)
-        ctx.touch(g)
-        for bb, t in g.calls():
-            if g.blocks[bb]["cleanup"]:
-                continue
-            held = init_at_terminator(g, IN, bb) & gl
-            if not held:
-                continue
-            n += 1
-            ctx.call_sites += 1
-            eff = facts.call_effects(inst, bb) & FORBIDDEN_UNDER_TODO
-            is_task = t.get("callee") in ("std::ops::FnMut::call_mut", "std::ops::FnOnce::call_once", "std::ops::Fn::call")
-            ok = not eff and not is_task
-            ctx.ob("C08.2", "%s|under-todo-lock|%s" % (g.id, short(call_name(t))), "while the pool's task-queue lock is held nothing blocks and no task runs", ok, g.loc(bb),
-                   None if ok else ("a task is invoked with the lock held" if is_task else "effects %s" % sorted(eff)))
-        for bb, t in g.drops():
-            if g.blocks[bb]["cleanup"] or "MutexGuard" in t["ty"]:
-                continue
-            held = (IN[bb] or frozenset()) & gl
-            if held and "dyn std::ops::FnMut" in t["ty"]:
-                n += 1
-                ctx.ob("C08.2", "%s|under-todo-lock|drop-task" % g.id, "no task (and the connection it owns) is destroyed while the lock is held", False, g.loc(bb))
+    n = PR.rule_nothing_under_lock(ctx, "C08.2", FORBIDDEN_UNDER_TODO)
     ctx.floor("C08.2 calls under the todo lock", n, 8)
 
-    # ---- C08.3 one spawn per accepted connection
-    acc = facts.find_fns(r"^Server::from_listener::\{closure#0\}$")
-    ctx.require(len(acc) == 1, "C08.3: accept-thread closure not found")
-    a = acc[0]
+    # ---- C08.3 one dispatch per accepted connection
+    a = SM.a
     ctx.touch(a)
     accepts = a.call_blocks(lambda t: call_matches(t, r"connection::Listener::accept$"))
-    spawns = a.call_blocks(lambda t: call_is(t, spawn.id))
-    ctx.require(len(accepts) == 1 and spawns, "C08.3: accept/spawn calls not found (accept=%d spawn=%d)" % (len(accepts), len(spawns)))
+    spawns = a.call_blocks(lambda t: call_is(t, P.dispatch.id))
     ccnew = a.call_blocks(lambda t: call_matches(t, r"client::ClientConnection::new$"))
-    ctx.require(ccnew, "C08.3: ClientConnection::new not called in the accept loop")
-    for i, cb in enumerate(ccnew):
-        reach = reach_variants(a, [a.normal_target(cb)], blocked=set(spawns), unwind=False)
-        ok = accepts[0] not in reach and not any(r in reach for r in a.returns())
-        ctx.paths += 1
-        ctx.ob("C08.3", "%s|connection-spawned|%d" % (a.id, i), "every accepted connection is handed to the pool before the next accept", ok, a.loc(cb))
-    for i, sb in enumerate(spawns):
-        again = a.reach([a.normal_target(sb)], blocked=set(accepts), unwind=False)
-        ctx.ob("C08.3", "%s|spawn-once|%d" % (a.id, i), "a connection is spawned once (no second spawn without another accept)", not (again & set(spawns)), a.loc(sb))
-    task = facts.find_fns(r"^Server::from_listener::\{closure#0\}::\{closure#0\}$")
-    ctx.require(len(task) == 1, "C08.3: connection task closure not found")
-    tk = task[0]
-    takes = [(bb, t) for bb, t in tk.calls() if call_is(t, "std::option::Option::<T>::take") and "client" in arg_origin_fields(tk, t)]
-    ok = len(takes) == 1
-    if ok:
-        bb, t = takes[0]
-        iters = tk.call_blocks(lambda t2: call_matches(t2, r"ClientConnection as std::iter::Iterator>::next$"))
-        sw = None
-        for b2 in sorted(tk.reach([t["target"]], unwind=False)):
-            s2 = switch_on_discr(tk, b2)
-            if s2 and s2[0]["pl"]["l"] == t["dest"]["l"]:
-                sw = (b2, s2)
-                break
-        ok = sw is not None and all(tk.dominates(sw[0], ib, unwind=False) for ib in iters)
-    ctx.ob("C08.3", "%s|takes-connection-once" % tk.id, "the task takes its connection out of an Option, so running it again is a no-op (one worker per connection)", ok, "%s:%d" % (tk.file, tk.line))
+    ctx.ob("C08.3", "accept-thread|shape", "the accept thread accepts connections, wraps each in a ClientConnection and hands it to the pool", len(accepts) == 1 and bool(spawns) and bool(ccnew), "%s:%d" % (a.file, a.line),
+           "accept=%d dispatch=%d ClientConnection::new=%d" % (len(accepts), len(spawns), len(ccnew)))
+    if len(accepts) == 1 and spawns and ccnew:
+        for i, cb in enumerate(ccnew):
+            reach = reach_variants(a, [a.normal_target(cb)], blocked=set(spawns), unwind=False)
+            ok = accepts[0] not in reach and not any(r in reach for r in a.returns())
+            ctx.paths += 1
+            ctx.ob("C08.3", "accept-thread|connection-spawned|%d" % i, "every accepted connection is handed to the pool before the next accept", ok, a.loc(cb))
+        for i, sb in enumerate(spawns):
+            again = a.reach([a.normal_target(sb)], blocked=set(accepts), unwind=False)
+            ctx.ob("C08.3", "accept-thread|spawn-once|%d" % i, "a connection is spawned once (no second spawn without another accept)", not (again & set(spawns)), a.loc(sb))
+            # what is dispatched is the per-connection task
+            o = a.origin(a.term(sb)["args"][1]) if len(a.term(sb)["args"]) > 1 else ("unknown",)
+            okt = any(x[0] == "agg" and x[1] == SM.task_def for x in origin_walk(o))
+            ctx.ob("C08.3", "accept-thread|dispatches-connection-task|%d" % i, "what is handed to the pool is the task that serves this connection", okt, a.loc(sb), origin_str(o)[:200])
 
-    # ---- C08.4 worker: every popped task runs; retire only when timed out with an empty queue
-    w = worker
-    pops = [bb for bb, t in w.calls() if re.search(r"VecDeque::<T(, A)?>::pop_front$", call_name(t))]
-    runs = [bb for bb, t in w.calls() if t.get("callee") == "std::ops::FnMut::call_mut" and not w.blocks[bb]["cleanup"]]
-    ctx.require(pops and runs, "C08.4: worker has no pop_front / task call")
-    for i, pb in enumerate(pops):
-        t = w.term(pb)
-        sw = None
-        for b2 in sorted(w.reach([t["target"]], unwind=False)):
-            s2 = switch_on_discr(w, b2)
-            if s2 and s2[0]["pl"]["l"] == t["dest"]["l"] and not s2[0]["pl"]["p"]:
-                sw = s2
-                break
-        ctx.require(sw is not None, "C08.4: popped task is not matched")
-        rv, m, otherwise, rest = sw
-        some_t = m.get("Some", otherwise if "Some" in rest else None)
-        reach = w.reach([some_t], blocked=set(runs), unwind=False)
-        ok = not (reach & set(pops)) and not any(r in reach for r in w.returns())
-        ctx.paths += 1
-        ctx.ob("C08.4", "%s|popped-task-runs|%d" % (w.id, i), "a task taken from the queue is always executed", ok, w.loc(pb))
-        # and what runs is the popped task
-        for rb in runs:
-            if rb in w.reach([some_t], unwind=False):
-                o = w.origin(w.term(rb)["args"][0])
-                okp = any(x[0] == "downcast" and x[2] == "Some" for x in origin_walk(o)) or any(x[0] == "local" for x in origin_walk(o))
-                ctx.ob("C08.4", "%s|runs-popped-task|%d" % (w.id, i), "the task executed is the one popped", okp, w.loc(rb))
-    empties = [(bb, t) for bb, t in w.calls() if re.search(r"VecDeque::<T(, A)?>::is_empty$", call_name(t))]
-    rets = [r for r in w.returns() if not w.blocks[r]["cleanup"]]
-    ctx.require(rets, "C08.4: worker has no return")
-    true_edges = []
-    for bb, t in empties:
-        bs = bool_switch(w, t["target"]) if t.get("target") is not None else None
-        if bs and op_local(bs[0]) == t["dest"]["l"]:
-            true_edges.append((bb, bs[1], t["target"]))
-    for r in rets:
-        ok = any(w.dominates(te, r, unwind=False) for _, te, _ in true_edges)
-        ctx.ob("C08.4", "%s|retire-only-when-empty" % w.id, "a worker thread exits only after seeing the task queue empty", ok, w.loc(r))
-    # ... and only after a wait that timed out
-    for bb, te, swb in true_edges:
-        dom = w.dominators(False)
-        cands = [b for b in dom[bb] if bool_switch(w, b) and b != swb]
-        okr = False
-        detail = None
-        for b in sorted(cands, key=lambda b: -len(dom[b])):
-            bs = bool_switch(w, b)
-            l = op_local(bs[0])
-            if l is None:
-                continue
-            # `received`: multi-def local (true after the untimed wait, !timed_out() after the timed one)
-            src = l
-            d = w.single_def(l)
-            if d and d[0] == "assign" and d[3]["rv"] == "use" and op_local(d[3]["op"]) is not None:
-                src = op_local(d[3]["op"])
-            defs = [x for x in w.defs().get(src, []) if x[0] == "assign"]
-            kinds = set()
-            for x in defs:
-                rv = x[3]
-                if rv["rv"] == "use" and op_const(rv["op"]) is True:
-                    kinds.add("true")
-                elif rv["rv"] == "unop" and rv["op"] == "Not" and origin_has_call(w.origin(rv["a"]), r"WaitTimeoutResult::timed_out$"):
-                    kinds.add("not-timed-out")
-                else:
-                    kinds.add("other")
-            if kinds == {"true", "not-timed-out"} and w.dominates(bs[2], bb, unwind=False) and not w.dominates(bs[1], bb, unwind=False):
-                okr = True
-                break
-            detail = "received-flag definitions: %s" % sorted(kinds)
-        ctx.ob("C08.4", "%s|retire-only-after-timeout" % w.id, "the exit test is reached only when the wait timed out (a notified worker always goes back to the queue)", okr, w.loc(bb), detail if not okr else None)
+    # ---- C08.4 worker: every popped task runs exactly once; retire only when timed out with an empty queue
+    n = PR.rule_worker_loop(ctx, "C08.4")
+    ctx.floor("C08.4 worker pop/wait sites", n, 3)
 
     # ---- C08.5 blocking receives exist only in the per-connection turn taking
-    allowed_recv = {method(facts, T_WRITE, SW, "write").id, method(facts, T_WRITE, SW, "flush").id, method(facts, T_DROP, SW, "drop").id,
-                    method(facts, T_READ, SR, "read").id, method(facts, T_DROP, SR, "drop").id}
+    seq_file = facts.adt(SW)["file"]
+    tk = SM.tk
     n = 0
     for g, bb, t in facts.all_calls(lambda t: call_is(t, RECV, "std::sync::mpsc::Receiver::<T>::recv_timeout") or call_matches(t, r"std::sync::mpsc::(Iter|IntoIter)<.*> as std::iter::Iterator>::next$")):
         n += 1
         where = g.id
-        ok = where in allowed_recv
+        ok = g.file == seq_file and (g.rec.get("impl_self_adt") or "").startswith(SW.rsplit("::", 1)[0])
         dead = None
-        if not ok and where == tk.id:
-            dead = shared.tls_branch_dead(ctx, tk, bb)
-            ok = dead
+        if not ok:
+            # the HTTPS-only wait of the connection task
+            tbs = [b2 for b2 in range(tk.n) if tk.src_of(b2) == g.id and tk.blocks[b2].get("obb") == bb and not tk.blocks[b2].get("synthetic")]
+            if tbs:
+                dead = all(shared.tls_branch_dead(ctx, tk, b2) for b2 in tbs)
+                ok = dead
         if not ok and re.match(r"^response::Response::<R>::new$", where):
             ok = True  # application-provided `additional_headers` receiver: application-side, not a connection
-        ctx.ob("C08.5", "chan-recv|%s" % where, "a blocking channel receive occurs only in the same-connection reader/writer turn taking"
+        ctx.ob("C08.5", "chan-recv|%s" % where, "a blocking channel receive occurs only in the same-connection reader/writer turn taking (the module that owns the turn channels)"
                + (" (the HTTPS-only wait in the connection task is dead code in this configuration)" if dead else ""), ok, g.loc(bb))
     ctx.floor("C08.5 blocking receive sites", n, 4)
-    inst = [i for i in facts.instances_of(tk.id) if i["kind"] == "item"]
+    inst = [i for i in facts.instances_of(SM.task_def) if i["kind"] == "item"]
     ctx.require(len(inst) == 1, "C08.5: instance of the connection task")
     bad = facts.effects()[inst[0]["id"]] & {"CV-WAIT", "CV-WAIT-T", "SLEEP", "JOIN"}
-    ctx.ob("C08.5", "%s|no-cross-connection-wait" % tk.id, "the connection task never sleeps, joins or waits on a condition variable", not bad, "%s:%d" % (tk.file, tk.line),
+    ctx.ob("C08.5", "connection-task|no-cross-connection-wait", "the connection task never sleeps, joins or waits on a condition variable", not bad, "%s:%d" % (tk.file, tk.line),
            None if not bad else "%s via %s" % (sorted(bad), facts.effect_witness(inst[0]["id"], sorted(bad)[0])[:8]))
     return {}
